@@ -235,7 +235,11 @@ func TestC05Versions(t *testing.T) {
 			}
 		}
 		for _, op := range []string{"restart", "adv25h", "age"} {
-			if histCount(hist, op, "", 0) < 1 {
+			max := 1
+			if op == "adv25h" {
+				max = 2 // two days on, a delivery's log record is outside the day files "the last 24 h" touch
+			}
+			if histCount(hist, op, "", 0) < max {
 				out = append(out, sAction{Op: op})
 			}
 		}
@@ -246,5 +250,5 @@ func TestC05Versions(t *testing.T) {
 		depth = 9
 	}
 	runSimCheck(t, "C05", "retransmissions of the latest of two versions of a name (E-HIST)", files, alphabet, c05Check, depth,
-		fmt.Sprintf("all histories up to length %d over two versions of one name (1 and 2 parts, the second after the first): every part up to twice, orderly restart, clock +25 h, cache ageing", depth))
+		fmt.Sprintf("all histories up to length %d over two versions of one name (1 and 2 parts, the second after the first): every part up to twice, orderly restart, clock +25 h (x2), cache ageing", depth))
 }
